@@ -67,13 +67,24 @@ def age_hook_present():
         return False
 
 
-def build(ctx):
+def _grep(rel, needle):
+    try:
+        return needle in open(os.path.join(vlib.REPO, rel)).read()
+    except OSError:
+        return False
+
+
+def build(ctx, race=False):
     tags = "verif"
     if hook_present():
         tags += ",dnshook"
         if age_hook_present():
             tags += ",dnsage"          # the stateful mDNS cache family needs VerifAgeMDNSCache
-    return vlib.go_build(ctx, "walkdrv", tags=tags)
+    if _grep("verif_stp_on.go", "VerifResetSTPLog("):
+        tags += ",stphook"             # re-arm the STP log limiter before every case
+    if _grep("handlers/dhcp4_spoofer/verif_on.go", "VerifResetStorm("):
+        tags += ",dhcphook"            # re-arm the DISCOVER storm limiter before every dhcp case
+    return vlib.go_build(ctx, "walkdrv", race=race, tags=tags)
 
 
 def walk_cfg(walker, maxlen, alpha, kfs):
@@ -106,9 +117,13 @@ def generate(ctx, walkers):
         res = {}
         for f in concurrent.futures.as_completed(futs):
             res[futs[f]] = f.result()
-    for job in jobs:                      # deterministic order
+    # vectors that need a process whose rate limiters have not fired yet come first (walkdrv -solo)
+    jobs_sorted = sorted(jobs, key=lambda j: 0 if j[0] == "llc" else 1)
+    for job in jobs_sorted:               # deterministic order
         r, vs = res[job]
         summary["%s_%d_%s" % job] = dict(r.summary(), vectors=len(vs))
+        if job[0] == "llc":
+            vs.sort(key=lambda v: 0 if is_solo(v) else 1)
         for v in vs:
             d = vlib.digest([v["w"], v["seq"], v["aux"]])
             if d in seen:                 # the deep and the wide alphabet overlap
@@ -120,13 +135,22 @@ def generate(ctx, walkers):
     return vectors, summary, kfs
 
 
+def is_solo(v):
+    """Large STP frames: the log line that renders the whole payload is written for the first STP frame of a
+    process and then once in five minutes; each of them runs as the first frame of its own worker process."""
+    return v["w"] == "llc" and v["seq"] and v["seq"][0]["sap"] == "stp" and v["seq"][0]["len"] >= 600
+
+
 def drive(ctx, binary, vectors, label, k, mut, procs=4):
     vp = os.path.join(ctx.scratch, "vectors_%s.ndjson" % label)
     rp = os.path.join(ctx.scratch, "results_%s.ndjson" % label)
     with open(vp, "w") as f:
         for v in vectors:
             f.write(json.dumps(v, separators=(",", ":")) + "\n")
-    p = vlib.run_driver(ctx, binary, ["-mode", "run", "-vectors", vp, "-out", rp, "-k", k, "-mut", mut, "-procs", procs],
+    solo = 0
+    while solo < len(vectors) and is_solo(vectors[solo]):
+        solo += 1
+    p = vlib.run_driver(ctx, binary, ["-mode", "run", "-vectors", vp, "-out", rp, "-k", k, "-mut", mut, "-procs", procs, "-solo", solo],
                         timeout=3000)
     summ = json.loads(p.stdout.strip().splitlines()[-1])
     return summ, vlib.read_ndjson(rp)
@@ -150,6 +174,72 @@ def run_one(ctx, binary, vector, c, k, mut, watchdog="2s"):
             return {"outcome": "killed", "msg": [l for l in p.stderr.splitlines() if "fatal error" in l or "exceeds" in l][:1]}
         raise vlib.InfraError("walkdrv -mode one gave no result (rc %d): %s" % (p.returncode, p.stderr[-2000:]))
     return json.loads(lines[-1])
+
+
+def conc_cfg(unlocked):
+    return ("SPECIFICATION Spec\nCONSTANTS\n  Readers = {r1, r2, r3}\n  Rounds = 2\n  DecodeUnlocked = %s\n"
+            "INVARIANTS TypeOK LockDiscipline C08_NoConcurrentMapAccess\nCHECK_DEADLOCK FALSE\n" % ("TRUE" if unlocked else "FALSE"))
+
+
+def conc_stage(ctx, binary):
+    """Concurrent stage of C08 (spec/WalkConc.tla): packet loop goroutine + readers of the goroutine-safe DNS table API
+    in a child process; an unrecoverable runtime error of the child is the finding. Returns a coverage dict."""
+    cov = {}
+    r = vlib.tlc(ctx, "WalkConc", cfg="wc.cfg", files={"wc.cfg": conc_cfg(False)}, workers=1, timeout=300)
+    if not r.ok:
+        raise vlib.InfraError("TLC WalkConc: the lock protocol of the model does not keep readers out of a write (violated=%s)\n%s"
+                              % (r.violated, r.out[-1500:]))
+    r2 = vlib.tlc(ctx, "WalkConc", cfg="wc2.cfg", files={"wc2.cfg": conc_cfg(True)}, workers=1, timeout=300)
+    if r2.violated != "C08_NoConcurrentMapAccess":
+        raise vlib.InfraError("TLC WalkConc: the unlocked variant must violate C08_NoConcurrentMapAccess (vacuity guard)")
+    cov["tlc"] = {"code_shape": r.summary(), "decode_unlocked_variant": r2.summary()}
+    if not hook_present():
+        cov["skipped"] = "dns_naming.VerifNew absent"
+        return cov
+
+    def once(b, dur):
+        e = dict(os.environ)
+        e.update({"VERIF_SEED": str(ctx.seed)})
+        try:
+            return subprocess.run([b, "-mode", "conc", "-dur", dur, "-readers", "3"], env=e, timeout=120,
+                                  stdout=subprocess.PIPE, stderr=subprocess.PIPE, text=True, errors="replace")
+        except subprocess.TimeoutExpired:
+            raise vlib.InfraError("walkdrv -mode conc timed out")
+
+    def fatal(p):
+        for line in p.stderr.splitlines():
+            if line.startswith("fatal error:"):
+                return line[len("fatal error:"):].strip()
+        return None
+
+    dur = "3s" if ctx.quick else "10s"
+    p = once(binary, dur)
+    f = fatal(p)
+    if f:
+        p2 = once(binary, dur)
+        if fatal(p2) or fatal(once(binary, dur)):
+            ctx.report("C08:conc:dns:fatal:%s" % f.replace(" ", "-"),
+                       "the process died (%s) while the packet loop fed DNS/mDNS responses to ProcessDNS/ProcessMDNS and three goroutines "
+                       "used DNSFind / DNSExist / PrintDNSTable of the same handler" % f, {"conc": {"dur": dur, "readers": 3}})
+        else:
+            cov["unreproduced"] = f
+    elif p.returncode != 0:
+        raise vlib.InfraError("walkdrv -mode conc exited %d: %s" % (p.returncode, p.stderr[-1500:]))
+    else:
+        cov["run"] = json.loads(p.stdout.strip().splitlines()[-1])
+    if not ctx.quick:
+        rb = build(ctx, race=True)
+        p = once(rb, "6s")
+        if "WARNING: DATA RACE" in p.stderr:
+            import re
+            fns = re.findall(r"^  (github\.com/irai/packet[^\s(]*(?:\([^)]*\))?[^\s(]*)\(", p.stderr, re.M)[:2]
+            ctx.report("C08:race:dns:%s" % "~".join(x.split("/")[-1] for x in fns), "data race reported by the race detector in the concurrent DNS stage",
+                       {"conc": {"dur": "6s", "readers": 3, "race": True}})
+        elif p.returncode != 0 and not fatal(p):
+            raise vlib.InfraError("walkdrv(race) -mode conc exited %d: %s" % (p.returncode, p.stderr[-1500:]))
+        else:
+            cov["race_run"] = json.loads(p.stdout.strip().splitlines()[-1]) if p.returncode == 0 else "died"
+    return cov
 
 
 def dev_of(vector, group, what):
